@@ -1168,7 +1168,7 @@ class DiGraphLiveness(DiGraph):
         """
         Compute the liveness information for the digraph.
         """
-        todo = set(self.leaves())
+        todo = set(self.nodes())
         while todo:
             node = todo.pop()
             cur_block = self.blocks.get(node, None)
